@@ -5,7 +5,7 @@ CONSTANTS
   MaxDepth = 3
   MinKeep = 0
   MaxBlocks = 40
-  Acts = {"StartDuringReorg", "Shrink"}
+  Acts = {"StartDuringReorg", "Shrink", "Reconnect"}
   MaxHist = 25
   FullHist = TRUE
 INIT Init
